@@ -257,6 +257,16 @@ theorem c17_table_disciplined (thrs : List Lock.Thr) (he : RespectsEdges lockEdg
     Lock.Disciplined rank thrs :=
   respects_ranked_disciplined rank lockEdges c17_lock_order_ranked thrs he
 
+/-- **Every wait can end.** In every state that respects the extracted edges in which some thread
+    waits, some waiting thread wants a mutex that is free or held only by running (not waiting)
+    threads. Together with `c17_no_lock_leak` (a running holder releases before it returns) this is
+    the state-level content of "none blocking forever on the stack's own locks"; the induction over
+    time under a fair scheduler is NOT formalised (see the audit in `props/C17.py`). -/
+theorem c17_some_waiter_can_proceed (thrs : List Lock.Thr) (he : RespectsEdges lockEdges thrs)
+    (hw : ∃ t ∈ thrs, t.waiting ≠ none) :
+    ∃ t ∈ thrs, ∃ m, t.waiting = some m ∧ ∀ t' ∈ thrs, m ∈ t'.held → t'.waiting = none :=
+  some_waiter_can_proceed thrs (c17_no_deadlock thrs he) hw
+
 /-- non-vacuity of the assumption (independent of the generated rows): an edge table, a state with
     nested waiting that respects it, and the conclusion applies; a cyclic table admits deadlock -/
 example : RespectsEdges [(1, 2), (2, 3), (1, 3)] [⟨[1], some 2⟩, ⟨[1, 2], some 3⟩, ⟨[3], none⟩] := by decide
